@@ -305,6 +305,11 @@ def gen_case(rng, idx, tier):
     nrew = 4 if tier == 'quick' else 6
     if rng.random() < 0.2:
         return gen_matrix(rng, tier)
+    if rng.random() < 0.1:
+        from rv import matrule
+        sp_ = matrule.gen(rng, tier)
+        sp_['kind'] = 'matrule15'
+        return sp_
     if rng.random() < 0.7:
         spec = R.gen(rng, tier)
         vs = []
@@ -359,6 +364,28 @@ def run_case(spec, ctx):
     kind = spec['kind']
     if kind == 'matrix':
         return run_matrix(spec, ctx)
+    if kind == 'matrule15':
+        # robust rows on a matrix-shaped rule: the array spelling drawn for the case and the
+        # element-wise loops must give the same optimum (both are also compared with the closed
+        # form)
+        from rv import matrule
+        import copy as _c
+        a_ = matrule.run(dict(spec, kind='matrule'), ctx, exact=True)
+        if a_.get('status') != 'held':
+            return a_
+        s2 = _c.deepcopy(spec)
+        s2['kind'] = 'matrule'
+        s2['spell'] = 'entries' if spec['spell'] != 'entries' else 'plain'
+        b_ = matrule.run(s2, ctx, exact=True)
+        if b_.get('status') == 'violation':
+            return b_
+        ctx.count('rewrites_compared')
+        if b_.get('status') == 'held' and abs(a_['observed']['value'] - b_['observed']['value']) > \
+                1e-6 * (1 + abs(a_['observed']['value'])):
+            return {'status': 'violation', 'mechanism': 'matrule:array and loop spellings differ',
+                    'detail': {'array': a_['observed'], 'loops': b_['observed']},
+                    'features': a_.get('features'), 'sig': a_.get('sig'), 'nontrivial': True}
+        return a_
     base = spec['spec']
     try:
         B0 = R.build(base) if kind == 'ro' else D.build(base)
